@@ -614,6 +614,19 @@ class Interp:
         if ideal is not None:
             if self.fits(st, ideal, tres):
                 return Num(ideal)
+            rng_ = int_range(tres)
+            if self.track_content and base in ("Add", "Sub") and rng_ is not None and rng_[0] == 0:
+                # wrapping unsigned arithmetic (release profile): the result is the ideal value modulo 2^bits, and the
+                # ideal value of a sum / difference of two in-range operands is off by at most one modulus
+                mod = rng_[1] + 1
+                r = self.top_num(st, tres)
+                k = self.fresh_num(st, 0, 1, "wrap")
+                st.cells["ghost:q:" + next(iter(k.e.t))] = k
+                if base == "Add":
+                    st.sys.add_eq(ideal - r.e - k.e.scale(mod))
+                else:
+                    st.sys.add_eq(ideal - r.e + k.e.scale(mod))
+                return r
             return self.top_num(st, tres)
         rng = int_range(tres)
         unsigned = rng is not None and rng[0] == 0
@@ -1194,7 +1207,12 @@ class Interp:
             if a.view is not None and b.view is not None and a.view[0] == b.view[0]:
                 off = self.join_values(Num(a.view[1]), Num(b.view[1]), sa, sb, phis, name + ".off")
                 view = (a.view[0], off.e)
-            return Seq(ln.e, a.elem, weak_join(a.items, b.items), view, a.src if a.src == b.src else None)
+            src = a.src if a.src == b.src else None
+            if src is None and src_atom(a.src) and src_atom(b.src) and a.src[0] == b.src[0]:
+                # windows of the same content at different offsets: the offset gets a phi variable (as for views)
+                so = self.join_values(Num(a.src[1]), Num(b.src[1]), sa, sb, phis, name + ".soff")
+                src = (a.src[0], so.e)
+            return Seq(ln.e, a.elem, weak_join(a.items, b.items), view, src)
         if isinstance(a, Struct) and isinstance(b, Struct) and a.tag == b.tag:
             f = {}
             for i in set(a.f) & set(b.f):
